@@ -260,13 +260,15 @@ func init() {
 	}
 	core.Registry["C07"].Uses = append(core.Registry["C07"].Uses, core.Use{E: &core.Engine{Name: "conc-oversized", Run: RunConcOversized}, Quick: 6, Thorough: 60})
 	core.Registry["C07"].Rule += " Plus an Insert beyond badger's default transaction size next to two counting readers (none or all of the batch is ever visible; a refused batch leaves nothing)."
+	core.Registry["C07"].Uses = append(core.Registry["C07"].Uses, core.Use{E: &core.Engine{Name: "conc-recency", Run: RunConcRecency}, Quick: 120, Thorough: 3000})
+	core.Registry["C07"].Rule += " Plus a single writer that checks its own write (FindById, Count) the moment the call has returned, next to 3-8 readers that are always in flight (real-time order)."
 	eReadFaults := &core.Engine{Name: "read-faults", Run: RunReadFaults}
 	for id, n := range map[string][2]int{"C08": {60, 1500}, "C01": {40, 1000}, "C02": {40, 1000}} {
 		core.Registry[id].Uses = append(core.Registry[id].Uses, core.Use{E: eReadFaults, Quick: n[0], Thorough: n[1]})
 		core.Registry[id].Rule += " Plus sorted / windowed / filtered queries with every store call failing in turn (the query may fail; a reported success must still be the exact answer)."
 	}
 	eDDLFaults := &core.Engine{Name: "index-ddl-faults", Run: RunIndexDDLFaults}
-	for id, n := range map[string][2]int{"C14": {150, 3000}, "C06": {80, 1500}} {
+	for id, n := range map[string][2]int{"C14": {150, 3000}, "C06": {80, 1500}, "C02": {72, 1500}} {
 		core.Registry[id].Uses = append(core.Registry[id].Uses, core.Use{E: eDDLFaults, Quick: n[0], Thorough: n[1]})
 		core.Registry[id].Rule += " Plus CreateIndex / DropIndex with one store call failing (positions spread over the cases): the index is then wholly there or wholly gone - catalog, raw entries and queries through the re-created index agree."
 	}
